@@ -180,10 +180,29 @@ func (smpl *Simple[Type]) main() {
 	case <-smpl.breaker.IsBreaked():
 	case <-smpl.opts.Ctx.Done():
 	case <-smpl.graceful.IsBreaked():
-		smpl.priority.GracefulStop()
+		smpl.wg.Add(1)
+
+		go smpl.gracefulStopper()
+
+		// waiting for graceful termination must remain interruptible by rough stop
+		// and by context cancellation
+		select {
+		case <-smpl.breaker.IsBreaked():
+		case <-smpl.opts.Ctx.Done():
+		case err, opened := <-smpl.priority.Err():
+			if opened {
+				smpl.err <- err
+			}
+		}
 	case err := <-smpl.priority.Err():
 		smpl.err <- err
 	}
+}
+
+func (smpl *Simple[Type]) gracefulStopper() {
+	defer smpl.wg.Done()
+
+	smpl.priority.GracefulStop()
 }
 
 func (smpl *Simple[Type]) handler(ctx context.Context) {
